@@ -22,7 +22,7 @@ func init() {
 	register(&Check{
 		ID: "C02", Level: "exploration", Configs: []string{"hostile", "hostile", "lossy"},
 		Run: runC02, PrePass: prepassC02,
-		QuickRuns:   600_000,
+		QuickRuns:   400_000,
 		ThoroughSec: 600,
 		Rule: "one run = 1-3 streams of 1-20 valid RTP wire images (0-15 CSRC, one-byte/two-byte/legacy extension blocks, RTP padding, empty payloads) sent through a wire that flips bits, " +
 			"truncates, injects garbage (random, boundary alphabet, short strings, mutated genuine packets), duplicates and reorders, decoded in arrival order by ONE reused rtp.Packet and ONE " +
